@@ -148,6 +148,7 @@ struct VfRun {
   void expected_int(const float *const *chan, int nch, int64_t off, int frames, int word, int sgned, int be, std::vector<uint8_t> &lo, std::vector<uint8_t> &hi, float gain = 1.f);
   void finish(Handle &H, bool twice);
   void lap_op(const Rec &op, const std::string &kind);
+  void oracle_seek_faulted(Handle &H, const Rec &op, const std::string &kind, const std::string &site, long ret, int64_t t1, bool was_dirty);
   void crosslap_op(const Rec &op);
   void halfrate_op(Handle &H, const Rec &op);
   bool in_range(const std::string &kind, const Rec &op, int64_t &target_pos, double &texact);
@@ -278,6 +279,9 @@ void VfRun::oracle_read(Handle &H, const OpRes &r, bool is_int, const Rec &op) {
     if (T < 0 || (T > sr.total && !past_odd_end)) return;
     if (T >= sr.total) {
       if (is_int && ((int)op.i("word", 2) <= 0)) { check(r.ret == OV_EINVAL, {"C17"}, site, "bad-word-accepted", fmt("ret=%ld", r.ret)); return; }
+      // half rate, odd-length link(s) played through: the position may already read `total` while the last (odd) sample is still pending, so a
+      // buffer too small for one frame is refused rather than told "end of stream"
+      if (slack && is_int && r.ret == OV_EINVAL && len < std::max(1, (int)op.i("word", 2)) * sr.ps.links[(size_t)sr.nlinks - 1]->r.ch) { g_stats.inc("c20.small_buffer_at_odd_end_accepted"); return; }
       check(r.ret == 0, P(), site, "no-eof-at-total", fmt("tell=total=%lld ret=%ld", (long long)T, r.ret));
       check(r.t1 == r.t0, P(), site, "tell-moved-at-eof", fmt("%lld->%lld", (long long)r.t0, (long long)r.t1));
       return;
@@ -397,6 +401,31 @@ bool VfRun::in_range(const std::string &kind, const Rec &op, int64_t &tp, double
     tt += add; pt += sr.ps.links[i]->len;
   }
   return false;
+}
+
+// C12, first clause, for seeks: a seek during which a callback failed "returns an error code or end-of-file" -- or it coped (short reads,
+// a retried probe) and then it has done what a seek does. What it may not do is report success from somewhere else. Only judged for the
+// first failure on a cleanly opened, intact, full-rate handle, where the model's positions are exact.
+void VfRun::oracle_seek_faulted(Handle &H, const Rec &op, const std::string &kind, const std::string &site, long ret, int64_t t1, bool was_dirty) {
+  if (ret != 0 || was_dirty || faulted_open || inexact() || sr.damaged || H.part || H.hr || H.hr_touched || !H.seekable || kind == "raw_seek") return;
+  int64_t tp = -1; double tex = 0; if (!in_range(kind, op, tp, tex)) return;
+  // a premature zero read is indistinguishable from the real end of the data: the seek settles for "end of stream" and whatever is primed or
+  // read next finds data again and resynchronises -- the application healed the source, not the library; nothing exact to demand
+  // a premature zero read is indistinguishable from the real end of the data; when the source then has data again after all (the application
+  // healed it, not the library) the decode picks up wherever that leaves it. Nothing exact to demand.
+  bool read_fault = false; for (auto &f : parse_faults(op)) { if (f.kind == IOF_EOF0) return; if (f.kind == IOF_EIO) read_fault = true; }
+  bool ok = t1 == sr.total;   // end-of-file
+  if (read_fault && (kind == "pcm_seek" || kind == "time_seek")) {
+    // while samples are being discarded up to the target a failed read looks like the end of the data (_fetch_and_process_packet reports
+    // OV_EOF for it, by design: ov_read turns read errors into end-of-file too); the seek settles for "end of stream", and a lapped seek's
+    // priming then finds data again and resynchronises to where the decoder really is: between the page the search landed on and the target.
+    int64_t w = 0; std::vector<int64_t> last((size_t)sr.nlinks, 0);
+    for (auto &pg : sr.ps.pages) if (pg.link >= 0 && pg.link < sr.nlinks && pg.granule >= 0 && !pg.header) { w = std::max(w, pg.granule - last[(size_t)pg.link]); last[(size_t)pg.link] = pg.granule; }
+    ok = ok || (t1 <= tp + 1 && t1 >= tp - w - 2 * 8192);
+  }
+  if (kind == "pcm_seek") ok = ok || t1 == tp; else if (kind == "time_seek") ok = ok || (t1 >= tp - 1 && t1 <= tp + 1); else ok = ok || (t1 >= 0 && t1 <= tp + (kind == "time_seek_page" ? 1 : 0));
+  g_stats.inc("probe.faulted_seek_reported_success");
+  check(ok, {"C12"}, site, "faulted-seek-reports-success-elsewhere", fmt("ret=0 tell=%lld target=%lld total=%lld", (long long)t1, (long long)tp, (long long)sr.total), {{"kind", kind}});
 }
 
 long VfRun::do_seek_call(Handle &H, const std::string &kind, const Rec &op, bool lap) {
